@@ -136,7 +136,7 @@ Definition check_first (int_size : N) (flags : list flagdef) (vec : list token)
 
 (** [callno] = 0: the first Parse on a fresh FlagSet (also through FromCommandLine: Parse(os.Args[1:])).
     [callno] > 0: a later Parse on the same FlagSet — refused by the code under verification ("must be called
-    once"), fields untouched.  Should an implementation accept it (return nil), the grammar still binds it:
+    once"), fields untouched (both are facts about the model only: deviations are drift).  Should an implementation accept it (return nil), the grammar still binds it:
     the assignments must be those of THIS vector ("never a silently different assignment"); agreement with that is
     reported as drift from the model only. *)
 Definition check_case (int_size : N) (flags : list flagdef) (callno : N) (unchanged : bool) (vec : list token)
@@ -146,7 +146,9 @@ Definition check_case (int_size : N) (flags : list flagdef) (callno : N) (unchan
     let v := check_first int_size flags vec cls detail args help fields in
     {| v_class := v_class v; v_args := v_args v; v_help := v_help v; v_fields := v_fields v; v_detail := false; v_lenient := v_lenient v |}
   else
-    {| v_class := is_error cls; v_args := true; v_help := true; v_fields := unchanged; v_detail := true; v_lenient := false |}.
+    (* the later call returned an error (or panicked): the property constrains nothing but "an error, not a panic";
+       the fields after a FAILED Parse are unconstrained — a change is only drift from the model *)
+    {| v_class := is_error cls; v_args := true; v_help := true; v_fields := true; v_detail := unchanged; v_lenient := false |}.
 
 Definition verdict_ok (v : verdict) : bool := v_class v && v_args v && v_help v && v_fields v.
 Definition verdict_clean (v : verdict) : bool := verdict_ok v && v_detail v.
